@@ -43,11 +43,12 @@ type Case struct {
 	Metric bool     `json:"metric"`
 	Es     []AEntry `json:"es"`
 	Cut    []int    `json:"cut"`
+	Alts   [][]int  `json:"alts"`
 	EOF    bool     `json:"eof"`
 	Lim    int64    `json:"lim"`
 	Fwd    bool     `json:"fwd"`
 	Exp    AObs     `json:"exp"`
-	Pred   AObs     `json:"pred"`
+	Preds  []AObs   `json:"preds"` // predicted for the code as transcribed: under Cut, then under each of Alts
 	Agree  bool     `json:"agree"`
 	Causes []string `json:"causes"`
 }
@@ -385,35 +386,20 @@ func runCase(idx int, c *Case, cf *CaseFile, rev map[string]string) *CaseResult 
 	}
 	r.Obs = o
 	r.Partitions = 1
-	r.MatchPred = sameObsExp(o, c.Pred, c.Metric)
-	// the same entries under other partitions: one message; one entry per message with empty messages between;
-	// a seeded random one
-	n := len(c.Es)
-	var alts [][]int
-	alts = append(alts, []int{n})
-	var single []int
-	for i := 0; i < n; i++ {
-		single = append(single, 1, 0)
-	}
-	alts = append(alts, single)
-	var rcut []int
-	for left := n; left > 0; {
-		k := rnd.Intn(left + 1)
-		rcut = append(rcut, k)
-		left -= k
-	}
-	alts = append(alts, rcut)
+	r.MatchPred = len(c.Preds) == 1+len(c.Alts) && sameObsExp(o, c.Preds[0], c.Metric)
+	// the same entries under the other partitions of the case
+	alts := c.Alts
 	partDep := false
-	for _, cut := range alts {
-		if n == 0 && len(cut) == 0 && !c.EOF {
-			continue
-		}
+	for ai, cut := range alts {
 		o2, _, err := run(cut)
 		if err != nil {
 			r.Kind, r.Detail = "plan", err.Error()
 			return r
 		}
 		r.Partitions++
+		if r.MatchPred && !sameObsExp(o2, c.Preds[1+ai], c.Metric) {
+			r.MatchPred = false
+		}
 		if !sameObs(o, o2, c.Metric) {
 			partDep = true
 			r.PartObs = append(r.PartObs, o2)
@@ -629,7 +615,12 @@ func chainMain(fs *flag.FlagSet, args []string) error {
 		}
 		if r.Kind == "crash" {
 			o.Crashes++
-			r.MatchPred = c.Pred.K == "crash"
+			r.MatchPred = false
+			for _, p := range c.Preds {
+				if p.K == "crash" {
+					r.MatchPred = true
+				}
+			}
 		}
 		if r.MatchPred {
 			o.PredAgree++
